@@ -324,6 +324,7 @@ def stmt (st : St) (ws : List String) : St × String :=
   | ["obs"] => (st, if st.depth > 0 then s!"open {st.depth}" else idleObs)
   | ["nodes"] => (st, "nodes=?")
   | ["memcheck"] => (st, "mem=ok")
+  | ["wfcheck"] => (st, "wf=ok")
   | ["leakcheck"] =>
     ({ st with names := [], lis := st.lis.map fun l => { l with active := false } }, "leak=0")
   | _ => (st, "bad-op")
